@@ -31,11 +31,19 @@ HEAD = (f'<xs:schema xmlns:xs="{XSD}" targetNamespace="{TNS}" xmlns:t="{TNS}" el
         '<xs:element name="s" type="xs:string" substitutionGroup="t:h"/>'
         '<xs:element name="q" type="xs:string" substitutionGroup="t:h" abstract="true"/>'
         '<xs:element name="d" type="xs:string" substitutionGroup="t:q"/>'
-        '<xs:element name="s2" type="xs:string" substitutionGroup="t:s"/>\n')
+        '<xs:element name="s2" type="xs:string" substitutionGroup="t:s"/>'
+        # a substitution group whose members have OTHER types than the head (derived, as the XSD requires): head hd,
+        # member md, member of the member md2
+        '<xs:element name="hd" type="xs:decimal"/>'
+        '<xs:element name="md" type="xs:integer" substitutionGroup="t:hd"/>'
+        '<xs:element name="md2" type="xs:int" substitutionGroup="t:md"/>\n')
+# type of every global element declaration of HEAD
+GLOBAL_TYPE = {'a': 'string', 'b': 'string', 'c': 'string', 'h': 'string', 's': 'string', 'q': 'string', 'd': 'string',
+               's2': 'string', 'hd': 'decimal', 'md': 'integer', 'md2': 'int'}
 
 # generator-level substitution closure = the names an element *reference* matches by name (the abstract member q
 # is matched by name too: the abstract check comes after attribution)
-SUBST = {'h': ['h', 's', 's2', 'd'], 's': ['s', 's2']}
+SUBST = {'h': ['h', 's', 's2', 'd'], 's': ['s', 's2'], 'hd': ['hd', 'md', 'md2'], 'md': ['md', 'md2']}
 
 # wildcard specs -> (xsd attributes, needs 1.1)
 WC_SPECS = {
@@ -58,7 +66,7 @@ TOKEN_SPECS = ['!q:##defined', '!q:##definedSibling', '!q:##defined,sib']
 
 # the symbol universe of the reference: (namespace, local); one representative per region
 FRESH = [(TNS, 'zz'), (ONS, 'z'), (PNS, 'z'), ('', 'z')]
-ELEM_NAMES = ['a', 'b', 'c', 'h', 's', 's2', 'd', 'q']
+ELEM_NAMES = ['a', 'b', 'c', 'h', 's', 's2', 'd', 'q', 'hd', 'md', 'md2']
 UNIVERSE = [(TNS, n) for n in ELEM_NAMES] + FRESH
 
 
@@ -209,9 +217,9 @@ def random_model(rng, v11: bool, max_depth: int = 3, max_items: int = 3) -> tupl
         if a[0] == 'a':
             return ('a', rng.choice(specs), a[2], a[3]) if r < 0.6 else a
         if r < 0.08:
-            return ('l', a[1], a[2], a[3], rng.choice(['string', 'int']))
+            return ('l', rng.choice([a[1], a[1], 'md', 'md2', 'hd']), a[2], a[3], rng.choice(['string', 'int', 'integer', 'decimal']))
         if r < 0.12 and not in_all:
-            return ('e', rng.choice(['s2', 'd']), a[2], a[3])
+            return ('e', rng.choice(['s2', 'd', 'hd', 'md']), a[2], a[3])
         return a
     return rewrite(m, False)
 
@@ -478,6 +486,36 @@ def edc_models() -> list[tuple]:
             out.append(('g', 'sequence', 1, 1, [mk(x, 1, 1), ('e', 'b', 1, 1), mk(y, lo, hi)]))
             out.append(('g', 'choice', 1, 1, [mk(x, 1, 1), ('g', 'sequence', 1, 1, [('e', 'b', 1, 1), mk(y, lo, hi)])]))
             out.append(('g', 'sequence', 1, 1, [mk(x, 1, 1), mk(y, lo, hi)]))
+    return out
+
+
+def edc_subst_models() -> list[tuple]:
+    """Element Declarations Consistent through a substitution group whose members have other types than the head
+    (hd: decimal, md: integer member of hd, md2: int member of md): a LOCAL element named like the head / the member /
+    the member of the member × its type = the head's / the member's / the member-of-member's / another one ×
+    before / after × a reference to the head / the member / the member of the member × adjacent / separated by b /
+    in the other branch of a choice × the later particle required / optional"""
+    out = []
+    for lname in ('hd', 'md', 'md2'):
+        for ltype in ('decimal', 'integer', 'int', 'string'):
+            for ref in ('hd', 'md', 'md2'):
+                for local_first in (True, False):
+                    for lo, hi in ((1, 1), (0, 1)):
+                        loc, r = ('l', lname, 1, 1, ltype), ('e', ref, 1, 1)
+                        x, y = (loc, r) if local_first else (r, loc)
+                        y = y[:2] + (lo, hi) + y[4:]
+                        out.append(('g', 'sequence', 1, 1, [x, y]))
+                        out.append(('g', 'sequence', 1, 1, [x, ('e', 'b', 1, 1), y]))
+                        out.append(('g', 'choice', 1, 1, [x, ('g', 'sequence', 1, 1, [('e', 'b', 1, 1), y])]))
+    # two REFERENCES into the group (head / member / member of the member, both orders): consistent whatever the
+    # types are (finding C15-F4 refuses (hd, b, md))
+    for r1 in ('hd', 'md', 'md2'):
+        for r2 in ('hd', 'md', 'md2'):
+            for lo, hi in ((1, 1), (0, 1)):
+                x, y = ('e', r1, 1, 1), ('e', r2, lo, hi)
+                out.append(('g', 'sequence', 1, 1, [x, ('e', 'b', 1, 1), y]))
+                out.append(('g', 'sequence', 1, 1, [x, y]))
+                out.append(('g', 'choice', 1, 1, [x, ('g', 'sequence', 1, 1, [('e', 'b', 1, 1), y])]))
     return out
 
 
@@ -970,5 +1008,5 @@ def edc_ref(ast: tuple) -> bool:
             decls.setdefault(l[1], set()).add(l[4])
         elif l[0] == 'e':
             for n in SUBST.get(l[1], [l[1]]):
-                decls.setdefault(n, set()).add('string')
+                decls.setdefault(n, set()).add(GLOBAL_TYPE[n])
     return all(len(v) == 1 for v in decls.values())
